@@ -27,7 +27,7 @@ ASSUMPTIONS = ["CPython audit events (open, os.mkdir, os.rename, os.remove, os.r
                "secondary evidence; the tree snapshot is the ground truth",
                "access times are not part of 'modified'"]
 TIMEOUT = 300
-VARIANTS = [(flag, cache, meta) for flag in ("arg", "config", "arg_over_dump", "config_shared") for cache in (None, "4KiB", "1MiB")
+VARIANTS = [(flag, cache, meta) for flag in ("arg", "config", "arg_over_dump", "config_shared", "config_text") for cache in (None, "4KiB", "1MiB")
             for meta in (False, True)]
 
 
@@ -92,7 +92,19 @@ def open_ro(sc, variant, writable=False):
     cfg = {"type": "filesystem", "path": sc.path("data"), "readonly": True}
     if mpath:
         cfg["metadata_path"] = mpath
-    b = StorageBackend.create("filesystem", cfg)
+    if flag == "config_text":
+        # the flag reaches the configuration as text: a JSON repository file that is a template with the flag inside
+        # quotes, rendered with a boolean / a spelled-out parameter (by the variant, no draw)
+        import twosigma.memento as m
+
+        cfg["readonly"] = "{{ ro }}"
+        os.makedirs(sc.path("cfg"), exist_ok=True)
+        with open(os.path.join(sc.path("cfg"), "repo.json"), "w") as f:
+            json.dump({"name": "r", "clusters": {"c": {"name": "c", "storage": cfg}}}, f)
+        spelled = [True, "TRUE", "Yes", "true", "on", 1][variant % 6]
+        b = m.ConfigurationRepository.from_file(os.path.join(sc.path("cfg"), "repo.json"), ro=spelled).clusters["c"].storage
+    else:
+        b = StorageBackend.create("filesystem", cfg)
     if mb is not None and b._memory_cache is None:
         # memory_cache_mb from configuration is C18's business; here the cache is attached directly
         from twosigma.memento.storage_base import MemoryCache
